@@ -32,6 +32,8 @@ H={
  'C11-r9a':"missed at first; caught since jstimeout has a program whose termination depends on the bindings, run after a hundred quick runs of the same compiled program",
  'C12-r9a':"missed at first; caught since specshare has a crowd of a hundred machines inside (slow) interpreted actions of one specification at once",
  'C12-r9b':"missed at first; caught since specswap probes the first installation into a Specter that holds no specification, under concurrent readers",
+ 'C13-r9a':"reported at first only by a false alarm of the check itself (the look-alike scalar '<nil>' in the plain JSON-text correspondence; corrected) and missed without it; caught since the mcrew operation sequences, with a specification file of 1.3 MB read through Service.GetSpec, also run for C13",
+ 'C13-r9b':"reported at first only by the same false alarm and missed without it; caught since the compile component has sio loaders by file:// URL with a JSON and a YAML body",
  'C15-r9b':"missed at first; caught since crew snapshots demand canonical Go types of every machine's bindings, also in the crew booted from the store",
  'C17-r9b':"NOT CAUGHT: needs a host that renames sio.TimersMachine (a package variable no host in the repository changes)",
  'C18-r9a':"missed at first; caught since c18 states sometimes carry 6-11 permanent bindings",
@@ -46,7 +48,7 @@ for d in sys.argv[1:]:
     if not os.path.exists(r): print('no result',n); continue
     res=json.load(open(r))
     rt='/tmp/seed5/retest_%s.json'%n
-    if not res.get('detected_by') and os.path.exists(rt):
+    if (not res.get('detected_by') or n in ('C13-r9a','C13-r9b')) and os.path.exists(rt):
         try:
             r2=json.load(open(rt))
             if r2.get('detected_by'):
